@@ -59,7 +59,7 @@ REQUIRED_OPS = ['and:plain', 'or:plain', 'xor:plain', 'and:reflected', 'or:refle
                 'lshift:inplace-fallback', 'rshift:inplace-fallback',
                 'law:double-invert', 'law:xor-self', 'law:and-or-self', 'law:de-morgan-and', 'law:de-morgan-or']
 REQUIRED_SENTINELS = ['S6']
-MIN_EVALS = {'quick': 100000, 'thorough': 1500000}
+MIN_EVALS = {'quick': 200000, 'thorough': 5000000}
 ASSUMPTIONS = ['"<<" moves bits towards the most significant end in both bit-order modes (fixed by the '
                'integer clause of the statement: uint is mode independent)',
                'the result class of an operator is the class of the left bitstring operand; for a promotable '
@@ -524,8 +524,8 @@ def gen_prog(rng, a, operands):
 def gen_case(ctx):
     rng = ctx.rng
     r = rng.random()
-    if r < 0.008 and not ctx.quick:
-        L = rng.choice([20000, 70000])
+    if r < 0.003 and not ctx.quick:
+        L = rng.choice([20000, 20000, 70000])
     elif r < 0.55:
         L = rng.choice(util.SHORT_LENGTHS)
     elif r < 0.93:
@@ -614,7 +614,7 @@ def run(ctx):
         ctx.run_case(judge, c)
     ctx.exhaustive[f'all content pairs up to {4 if ctx.quick else 5} bits x 4 classes x (& | ^ plain, ~, '
                    f'<< >> by -1..L+2)'] = True
-    n = ctx.scale(12000, 600000)
+    n = ctx.scale(12000, 480000)
     for i in range(n):
         c = gen_case(ctx)
         ctx.run_case(judge, c)
